@@ -99,6 +99,9 @@ type interpreter struct {
 	knownOpen map[string]bool
 	tree      *treeConc
 	allocs    []*value
+	// memory budget of "memory proportional to the input" harnesses: elements
+	// allocated by make() since verif_alloc_limit was called
+	allocLimit, allocUsed int64
 	slices    [][]value
 }
 
@@ -325,6 +328,13 @@ func visitInstr(fr *frame, instr ssa.Instruction) continuation {
 			// local
 			addr = fr.env[instr].(*value)
 		}
+		if at, ok := mustDeref(instr.Type()).Underlying().(*types.Array); ok && i.allocLimit > 0 {
+			// make([]T, constant) is an array allocation in SSA form
+			i.allocUsed += at.Len()
+			if i.allocUsed > i.allocLimit {
+				panic(targetPanic{fmt.Sprintf("memory budget exceeded: allocation of %d elements, %d allocated in total, budget %d (memory not proportional to the input)", at.Len(), i.allocUsed, i.allocLimit)})
+			}
+		}
 		*addr = zero(mustDeref(instr.Type()))
 
 	case *ssa.MakeSlice:
@@ -333,6 +343,12 @@ func visitInstr(fr *frame, instr ssa.Instruction) continuation {
 		cp, ln := asInt64(capv), asInt64(lenv)
 		if ln < 0 || cp < ln {
 			panic(targetPanic{"makeslice: len out of range"})
+		}
+		if i.allocLimit > 0 {
+			i.allocUsed += cp
+			if i.allocUsed > i.allocLimit {
+				panic(targetPanic{fmt.Sprintf("memory budget exceeded: make of %d elements, %d allocated in total, budget %d (memory not proportional to the input)", cp, i.allocUsed, i.allocLimit)})
+			}
 		}
 		if cp > 1<<24 {
 			unsupported("make of %d elements", cp)
